@@ -8,7 +8,7 @@ from common import Ctx, driver_json, fmt
 import uni_common as U
 
 PROPERTY = "C09"
-LEAN_MODULES = ["Proofs.C09", "Proofs.C09.Kernel", "Proofs.C09.Recip", "Proofs.C09.Tick", "Proofs.C09.ByValue", "Proofs.C09.Fee", "Proofs.C09.Views"]
+LEAN_MODULES = ["Proofs.C09", "Proofs.C09.Kernel", "Proofs.C09.Recip", "Proofs.C09.Tick", "Proofs.C09.ByValue", "Proofs.C09.Fee", "Proofs.C09.Views", "Proofs.C09.Std"]
 DRIVERS = ["driver"]
 RULE = ("each case builds a real UniLpMarket on pool (token0 = quote) and on its mirror (token0 = base; ticks negated, per-token volumes swapped, "
         "same base/quote price, same wallet) and runs the same sequence of base/quote-denominated operations on both: add_liquidity (by price), "
@@ -24,7 +24,10 @@ ASSUMPTIONS = ["|tick| <= 330000 + range width: get_liquidity_for_amount0 floors
                "amounts are compared at max(1e-12, 2/L_min) relative plus 4 atomic units, L_min = smallest positive liquidity held: liquidity is an "
                "integer, one unit of it is 1/L of the position (matters below L = 2e12); liquidity itself at 1e-12 relative plus 2 units",
                "a state in which the price lies on a range bound to within 1e-9 relative (in sqrt price) is counted and not compared: there the kernels' "
-               "reciprocity error (~1e-17) decides the regime and get_liquidity divides by (s - sqrt_bound); the property's regimes are in / below / above",
+               "reciprocity error (~1e-17) decides the regime and get_liquidity divides by (s - sqrt_bound); the property's regimes are in / below / above "
+               "(applies to every entry point that opens or values a range: add_liquidity by price — whose ticks each orientation derives from the two quote "
+               "prices —, add_liquidity_by_tick, add_liquidity_by_value, remove, the views; the *fee accrual* on a bound is discrete in the ticks and is not "
+               "skipped: stream fee-bound, theorem C09_fee_mirror, known finding mirror.fee.stationary-on-bound)",
                "a price closer than 1e-4 relative (two ticks) to a range bound without being on it — only prices that are not on a tick get there — "
                "is compared at max(1e-12, 4e-17 / distance): amounts and liquidity are quotients by (sqrtP - sqrt_bound) there and the two orientations' "
                "sqrt prices differ by ~1e-17 relative (Decimal(10**-12) is a binary double)",
@@ -301,6 +304,19 @@ def conditioning_tol(P, op=None):
 def regime_flip(P, op):
     """price numerically on a range bound: which side it falls on (and, inside, how far from the bound) is decided by the kernels'
     reciprocity error of ~1e-17, and get_liquidity is ill-conditioned there (amount / (s - sqrt_bound))"""
+    if op["op"] == "add" and "lower_price" in op:
+        # the price-form add: each market derives its own (usable) ticks from the two quote prices, exactly as `add_liquidity` does
+        from demeter.uniswap.core import V3CoreLib
+        from demeter.uniswap.helper import nearest_usable_tick
+        try:
+            out = False
+            for w in (P.A, P.B):
+                lt, ut = V3CoreLib.quote_price_pair_to_tick(w.pool, op["lower_price"], op["upper_price"])
+                lt, ut = sorted((nearest_usable_tick(lt, P.sp), nearest_usable_tick(ut, P.sp)))
+                out = out or near_bound(w, lt, ut)
+            return out
+        except Exception:  # noqa: BLE001
+            return False
     if "lower" not in op or "upper" not in op or op["op"] in ("collect",):
         return False
     lo, up = op["lower"], op["upper"]
@@ -642,7 +658,7 @@ def fee_bound_stream(ctx, rng):
                     bb, qb = w.broker.assets[w.pool.base_token].balance, w.broker.assets[w.pool.quote_token].balance
                     op = {"op": "add_by_tick", "lower": lo, "upper": up, "base": bb * Decimal("0.2"), "quote": qb * Decimal("0.2"), "sqrt": None, "tick": None,
                           "trim": True}
-                    rep = {"pair": P.spec, "ops": [{k: (fmt(v) if isinstance(v, (Decimal, Fraction)) else v) for k, v in op.items()}]}
+                    rep = {"pair": P.spec, "ops": [{k: (fmt(v) if isinstance(v, (Decimal, Fraction)) else v) for k, v in op.items()}], "fee_bound": True}
                     (ea, _), (eb, _) = apply_both(P, op)
                     if ea or eb or not P.A.market.positions:
                         ctx.case(f"fee-bound:{bound}:{P.dq}/{P.db}:{fee}:add-rejected")
@@ -654,7 +670,7 @@ def fee_bound_stream(ctx, rng):
                         before = pend(P)
                         P.refresh(rng, tick)
                         after = pend(P)
-                        rep = {"pair": P.spec, "ops": rep["ops"] + [{"op": "bar", "tick": tick}]}
+                        rep = {"pair": P.spec, "ops": rep["ops"] + [{"op": "bar", "tick": tick}], "fee_bound": True}
                         if before is None or after is None:
                             break
                         moved = any(a1 != a0 or b1 != b0 for (a0, b0), (a1, b1) in zip(before, after))
@@ -762,10 +778,22 @@ def replay(ctx: Ctx, case) -> bool:
         op = {k: (Decimal(v) if k in DEC and v is not None else v) for k, v in opj.items()}
         if op["op"] == "remove" and op["liq"] is not None:
             op["liq"] = Fraction(op["liq"])
+        held_flip = lambda: any(regime_flip(P, {"op": "x", "lower": k.lower_tick, "upper": k.upper_tick})   # noqa: E731
+                                for w_ in (P.A,) for k in w_.market.positions)
         if op["op"] == "bar":
             P.refresh(rng, op["tick"])
+            if held_flip() and not case.get("fee_bound"):
+                print("   price numerically on a range bound after the bar: counted, not compared (ASSUMPTIONS)")
+                return not sub.violations
         else:
+            if regime_flip(P, op) or held_flip():
+                # the same policy as run_sequence: a price within 1e-9 (in sqrt price) of a range bound is counted, not compared
+                print("   price numerically on a range bound: counted, not compared (ASSUMPTIONS)")
+                return not sub.violations
             (ea, ra), (eb, rb) = apply_both(P, op)
+            if held_flip():
+                print("   price numerically on a range bound: counted, not compared (ASSUMPTIONS)")
+                return not sub.violations
             if ea != eb:
                 print("   outcome", ea, eb)
                 return False
